@@ -13,20 +13,39 @@ from vlib.hyp import Failure, Outcome, Stats, search, derive_seed
 
 RULE = ('cases = (kernel class, dim, h log-uniform in [1e-6,1e6], q=r/h '
         'drawn uniformly / exactly on and a few ulp around every piece '
-        'boundary and the support edge / tiny, unit direction); the finite '
-        'set kernel x dim is enumerated completely. Non-trivial = '
-        '0 < q < radius_scale and r > 1e-12; distinct by case hash.')
+        'boundary and the support edge / tiny / far outside, unit direction '
+        '(axis, generic, in the x-y plane, along x), second point of the '
+        'wrapper call at the origin / near / far away, kernel objects from '
+        'the per-process cache or freshly constructed, positional or '
+        'keyword call form); the finite set kernel x dim is enumerated '
+        'completely (constructor, default constructor, attributes of the '
+        'compiled twin, get_deltap, normalisation, monotonicity). '
+        'Non-trivial = 0 < q < radius_scale and r > 1e-12; distinct by case '
+        'hash.')
 ASSUMPTIONS = [
     'documented formulas in the class docstrings are the specification',
     'pairs with |q - radius_scale| <= 4 ulp may be inside or outside '
     '(rounding of q = r*(1/h))',
     'for r <= 1e-12 (documented guard) only finiteness of the gradient is '
     'asserted',
+    'get_deltap is the inflection point of W (comments in get_deltap of '
+    'Gaussian, SuperGaussian, QuinticSpline; the tabulated values of the '
+    'others are the same quantity), asserted to 1e-7',
+    'the wrapper call with a second point away from the origin is compared '
+    'with the Python class at the separation the wrapper itself forms '
+    '(xi - xj in double precision)',
 ]
 EXHAUSTIVE = {}
 ESSENTIAL_LABELS = {'all': ['q:boundary_exact', 'q:edge_exact', 'q:interior',
-                            'q:outside', 'q:zero', 'h:small', 'h:large',
-                            'twin:checked']}
+                            'q:outside', 'q:zero', 'q:far', 'h:small',
+                            'h:large', 'twin:checked', 'wrap:origin',
+                            'wrap:offset_near', 'wrap:offset_far',
+                            'wrap:offset_coincident', 'dir:planar',
+                            'dir:xonly', 'dir:axis', 'dir:generic',
+                            'obj:fresh', 'obj:cached', 'call:keywords',
+                            'enum:ctor', 'enum:default_ctor',
+                            'enum:twin_attrs', 'enum:deltap',
+                            'enum:normalisation']}
 
 KERNELS = ['CubicSpline', 'WendlandQuinticC2_1D', 'WendlandQuintic',
            'WendlandQuinticC4_1D', 'WendlandQuinticC4',
@@ -162,7 +181,7 @@ def case_strategy(draw, pairs):
         h = hman * 10.0 ** hexp
     rs = RS[name]
     qk = draw(st.sampled_from(['interior', 'interior', 'interior', 'boundary',
-                               'edge', 'outside', 'zero', 'tiny']))
+                               'edge', 'outside', 'zero', 'tiny', 'far']))
     if qk == 'interior':
         q = draw(st.floats(0.0, rs, exclude_min=True, exclude_max=True))
         ul = 0
@@ -179,24 +198,48 @@ def case_strategy(draw, pairs):
     elif qk == 'zero':
         q = 0.0
         ul = 0
+    elif qk == 'far':
+        # far beyond the support (q*q up to 1e16: exp underflows, the
+        # polynomial pieces would be huge if they were evaluated)
+        q = rs * 10.0 ** draw(st.floats(0.5, 8))
+        ul = 0
     else:
         q = 10.0 ** draw(st.floats(-16, -3))
         ul = 0
-    # direction: axis aligned / generic / negative components
-    dk = draw(st.sampled_from(['axis', 'generic', 'generic']))
+    # direction: axis aligned / generic / negative components / the
+    # directions a 2-D or 1-D simulation produces (zero z, zero y and z)
+    dk = draw(st.sampled_from(['axis', 'generic', 'generic', 'planar',
+                               'xonly']))
     if dk == 'axis':
         ax = draw(st.integers(0, 2))
         sg = draw(st.sampled_from([-1.0, 1.0]))
         dirv = [0.0, 0.0, 0.0]
         dirv[ax] = sg
+    elif dk == 'xonly':
+        dirv = [draw(st.sampled_from([-1.0, 1.0])), 0.0, 0.0]
     else:
         comps = [draw(st.floats(-1, 1)) for _ in range(3)]
+        if dk == 'planar':
+            comps[2] = 0.0
         n = math.sqrt(sum(c * c for c in comps))
         if n < 1e-3:
             comps = [0.6, -0.8, 0.0]
             n = 1.0
         dirv = [c / n for c in comps]
-    return dict(kernel=name, dim=d, h=h, q=q, qkind=qk, ulps=ul, dir=dirv)
+    # second point of the wrapper call (the wrapper forms xi - xj itself)
+    ok = draw(st.sampled_from(['origin', 'near', 'near', 'far']))
+    if ok == 'origin':
+        origin = [0.0, 0.0, 0.0]
+    else:
+        sc = h * (3.0 if ok == 'near' else 10.0 ** draw(st.floats(2, 6)))
+        origin = [sc * draw(st.floats(-1, 1)) for _ in range(3)]
+        if dk == 'xonly' or dk == 'planar':
+            origin[2] = draw(st.sampled_from([0.0, origin[2]]))
+    fresh = draw(st.sampled_from([False, False, False, True]))
+    kw = draw(st.sampled_from([False, False, True]))
+    return dict(kernel=name, dim=d, h=h, q=q, qkind=qk, ulps=ul, dir=dirv,
+                dirkind=dk, origin=origin, okind=ok, fresh=fresh,
+                keywords=kw)
 
 
 # ------------------------------------------------------------------ oracle
@@ -233,7 +276,17 @@ def check_point(case):
     if h > 1e3:
         labels.append('h:large')
     kl = dict(dim=d)
-    kern, wrap = _twin(name, d)
+    if case.get('fresh'):
+        # constructed for this case only (several objects of one class, of
+        # different dim, are alive in the process at the same time)
+        from pysph.base.kernels import get_compiled_kernel
+        kern = _kernel_obj(name, d)
+        wrap = get_compiled_kernel(kern)
+        labels.append('obj:fresh')
+    else:
+        kern, wrap = _twin(name, d)
+        labels.append('obj:cached')
+    labels.append('dir:' + case.get('dirkind', 'generic'))
     r = q * h
     xij = [r * c for c in dirv]
     # the true q of the (r, h) the code is given
@@ -264,6 +317,16 @@ def check_point(case):
         return False
 
     try:
+        if case.get('keywords'):
+            # documented signatures: kernel(xij, rij, h), dwdq(rij, h),
+            # gradient(xij, rij, h, grad), gradient_h(xij, rij, h); the
+            # positional and the keyword form are the same call
+            labels.append('call:keywords')
+            wk = kern.kernel(rij=r, h=h, xij=xij)
+            dqk = kern.dwdq(h=h, rij=r)
+            gk = [2.5, 2.5, 2.5]
+            kern.gradient(grad=gk, h=h, rij=r, xij=xij)
+            ghk = kern.gradient_h(h=h, xij=xij, rij=r)
         w = kern.kernel(xij, r, h)
         dq = kern.dwdq(r, h)
         # the output buffer is re-used by callers (one DWIJ per thread in
@@ -273,6 +336,16 @@ def check_point(case):
         gh = kern.gradient_h(xij, r, h)
     except Exception as ex:
         return ([Failure(name, 'exception', repr(ex), kl)], labels, False)
+
+    if case.get('keywords'):
+        def same(a, b):
+            return a == b or (a != a and b != b)
+        if not (same(wk, w) and same(dqk, dq) and same(ghk, gh) and
+                all(same(x, y) for x, y in zip(gk, g))):
+            fails.append(Failure(
+                name, 'call_form', 'keyword call differs from positional '
+                'call: %r vs %r (q=%r h=%r)' % (
+                    (wk, dqk, gk, ghk), (w, dq, g, gh), q, h), kl))
 
     TOL_W = mp.mpf('1e-13')
     TOL_D = mp.mpf('2e-13')
@@ -334,9 +407,19 @@ def check_point(case):
         cg = np.array([7.0, -3.0, 11.0])
         ck.py_gradient(xa, r, h, cg)
         cgh = ck.py_gradient_h(xa, r, h)
-        # wrapper computes rij itself from coordinates
-        ww = wrap.kernel(xij[0], xij[1], xij[2], 0.0, 0.0, 0.0, h)
-        wg = wrap.gradient(xij[0], xij[1], xij[2], 0.0, 0.0, 0.0, h)
+        # wrapper computes xij = xi - xj and rij itself from coordinates
+        org = [float(c) for c in case.get('origin') or [0.0, 0.0, 0.0]]
+        xi = [org[a] + xij[a] for a in range(3)]
+        dx = [xi[a] - org[a] for a in range(3)]
+        ww = wrap.kernel(xi[0], xi[1], xi[2], org[0], org[1], org[2], h)
+        wg = wrap.gradient(xi[0], xi[1], xi[2], org[0], org[1], org[2], h)
+        if not any(org):
+            labels.append('wrap:origin')
+        else:
+            labels.append('wrap:offset_' + (
+                'far' if case.get('okind') == 'far' else 'near'))
+            if not any(dx):
+                labels.append('wrap:offset_coincident')
         labels.append('twin:checked')
     except Exception as ex:
         fails.append(Failure(name, 'compiled_twin', repr(ex), kl))
@@ -357,20 +440,27 @@ def check_point(case):
             if not near(cg[a], g[a], pk / h):
                 bad.append(('gradient[%d]' % a, cg[a], g[a]))
         # Wrapper: rij recomputed via sqrt -> compare to python at that rij
-        # exactly the wrapper's expression (x*x, not pow(x, 2))
-        rr = math.sqrt(xij[0] * xij[0] + xij[1] * xij[1] + xij[2] * xij[2])
-        pw = kern.kernel(xij, rr, h)
+        # exactly the wrapper's expression (x*x, not pow(x, 2)) on the
+        # separation the wrapper forms (dx == xij when xj is the origin)
+        rr = math.sqrt(dx[0] * dx[0] + dx[1] * dx[1] + dx[2] * dx[2])
+        pw = kern.kernel(dx, rr, h)
         pg = [5.0, 5.0, 5.0]
-        kern.gradient(xij, rr, h, pg)
+        kern.gradient(dx, rr, h, pg)
         # the wrapper recomputes r from the coordinates: within the
         # rounding band of a discontinuous support edge it may legitimately
         # land on the other side
-        if not disc_band:
+        wband = disc_band or (name in DISCONTINUOUS_EDGE and
+                              abs(rr / h - rs) <= 16 * rs * 2.2e-16)
+        if not wband:
             if not near(ww, pw, pk):
                 bad.append(('Wrapper.kernel', ww, pw))
             for a in range(3):
                 if not near(wg[a], pg[a], pk / h):
                     bad.append(('Wrapper.gradient[%d]' % a, wg[a], pg[a]))
+            # outside the support the wrapper returns exact zeros too
+            if rr / h >= rs * (1 + 16 * 2.2e-16) and (
+                    ww != 0.0 or any(c != 0.0 for c in wg)):
+                bad.append(('Wrapper outside support', ww, list(wg)))
         if bad:
             fails.append(Failure(name, 'compiled_twin',
                                  'compiled != python: %r (q=%r h=%r)' % (
@@ -385,6 +475,102 @@ def execute(case):
 
 
 # -------------------------------------------- enumeration: ctor, integrals
+def _record(stats, case, fails, label):
+    stats.record(case, Outcome(fails, [label], False))
+    for f in fails:
+        stats.failures.append(f.as_dict(case))
+
+
+def _enum_attrs(stats, name, d, k):
+    """Attributes of the class and of its compiled twin, get_deltap."""
+    mp = _mp()
+    from pysph.base import kernels
+    from pysph.base.kernels import get_compiled_kernel
+    kl = dict(dim=d)
+    # ---- the compiled twin carries the same numbers
+    case = dict(kernel=name, dim=d, kind='twin_attrs')
+    fails = []
+    try:
+        sig = float(ref_sigma(name, d))
+        if not abs(k.fac - sig) <= 4 * 2.2e-16 * sig:
+            fails.append(Failure(name, 'attrs', 'fac=%r but the documented '
+                                 'normalisation is %r' % (k.fac, sig), kl))
+        if k.dim != d:
+            fails.append(Failure(name, 'attrs', 'dim attribute %r' % (
+                k.dim,), kl))
+        # two wrappers of one Python object, and one of a second object
+        for obj in (k, k, getattr(kernels, name)(dim=d)):
+            w = get_compiled_kernel(obj)
+            got = dict(wrapper_radius_scale=w.radius_scale, wrapper_fac=w.fac,
+                       radius_scale=w.kern.radius_scale, fac=w.kern.fac,
+                       dim=w.kern.dim, deltap=w.kern.py_get_deltap())
+            exp = dict(wrapper_radius_scale=k.radius_scale, wrapper_fac=k.fac,
+                       radius_scale=k.radius_scale, fac=k.fac, dim=d,
+                       deltap=k.get_deltap())
+            if got != exp:
+                fails.append(Failure(
+                    name, 'compiled_twin', 'attributes of the compiled twin '
+                    '%r differ from the Python class %r' % (got, exp), kl))
+                break
+    except Exception as ex:
+        fails.append(Failure(name, 'compiled_twin', repr(ex), kl))
+    _record(stats, case, fails, 'enum:twin_attrs')
+    # ---- get_deltap: the inflection point of W (maximum of |dW/dq|)
+    case = dict(kernel=name, dim=d, kind='deltap')
+    fails = []
+    try:
+        dp = k.get_deltap()
+        if not (isinstance(dp, float) and 0.0 < dp < RS[name]):
+            fails.append(Failure(name, 'deltap', 'get_deltap() = %r' % (dp,),
+                                 kl))
+        else:
+            f = ref_piece(name, d, mp.mpf(dp))
+            root = mp.findroot(lambda x: mp.diff(f, x, 2), mp.mpf(dp))
+            d3 = mp.diff(f, root, 3)
+            # a minimum of dW/dq (third derivative > 0) next to the value
+            if abs(root - dp) > mp.mpf('1e-7') or not d3 > 0:
+                fails.append(Failure(
+                    name, 'deltap', 'get_deltap() = %r but the inflection '
+                    'point of the documented W is %s' % (
+                        dp, mp.nstr(root, 12)), kl))
+    except Exception as ex:
+        fails.append(Failure(name, 'deltap', repr(ex), kl))
+    _record(stats, case, fails, 'enum:deltap')
+
+
+def _enum_default_ctor(stats, name):
+    """K() is K(dim=<its documented default>): same numbers."""
+    from pysph.base import kernels
+    case = dict(kernel=name, dim=0, kind='default_ctor')
+    fails = []
+    try:
+        k0 = getattr(kernels, name)()
+        d = k0.dim
+        kl = dict(dim=d)
+        if d not in DIMS[name]:
+            fails.append(Failure(name, 'ctor', 'default constructor gives '
+                                 'dim %r' % (d,), dict(dim=0)))
+        else:
+            k1 = getattr(kernels, name)(dim=d)
+            if k0.__dict__ != k1.__dict__:
+                fails.append(Failure(
+                    name, 'ctor', 'default constructor %r differs from '
+                    'dim=%d: %r' % (k0.__dict__, d, k1.__dict__), kl))
+            for q in (0.0, 0.4, 1.3, 2.6):
+                a = (k0.kernel([q, 0.0, 0.0], q, 1.0), k0.dwdq(q, 1.0),
+                     k0.gradient_h([q, 0.0, 0.0], q, 1.0))
+                b = (k1.kernel([q, 0.0, 0.0], q, 1.0), k1.dwdq(q, 1.0),
+                     k1.gradient_h([q, 0.0, 0.0], q, 1.0))
+                if a != b:
+                    fails.append(Failure(name, 'ctor', 'default-constructed '
+                                         'kernel differs at q=%r: %r vs %r'
+                                         % (q, a, b), kl))
+                    break
+    except Exception as ex:
+        fails.append(Failure(name, 'ctor', repr(ex), dict(dim=0)))
+    _record(stats, case, fails, 'enum:default_ctor')
+
+
 def enumeration(stats, hs):
     """Finite part: constructor rejections, normalisation, monotonicity."""
     import numpy as np
@@ -392,6 +578,7 @@ def enumeration(stats, hs):
     from pysph.base import kernels
     xs, ws = np.polynomial.legendre.leggauss(24)
     for name in KERNELS:
+        _enum_default_ctor(stats, name)
         for d in (1, 2, 3):
             case = dict(kernel=name, dim=d, kind='ctor')
             fails = []
@@ -421,6 +608,7 @@ def enumeration(stats, hs):
                 stats.failures.append(f.as_dict(case))
             if not (ok and d in DIMS[name]):
                 continue
+            _enum_attrs(stats, name, d, k)
             rs = RS[name]
             sd = {1: 2.0, 2: 2 * math.pi, 3: 4 * math.pi}[d]
             # analytic expectation from the documented formula
@@ -509,11 +697,13 @@ def run_shard(spec, ctx):
 
 
 def run_case(case, component, ctx):
-    if case.get('kind') in ('ctor', 'normalisation'):
+    if case.get('kind') in ('ctor', 'normalisation', 'twin_attrs', 'deltap',
+                            'default_ctor'):
         stats = Stats()
         enumeration(stats, [case.get('h', 1.0)])
         return [f for f in stats.failures
                 if f['component'] == case['kernel'] and
-                f['klass'].get('dim') == case['dim']]
+                (case['kind'] == 'default_ctor' or
+                 f['klass'].get('dim') == case['dim'])]
     fails, _, _ = check_point(case)
     return [f.as_dict(case) for f in fails]
